@@ -13,6 +13,7 @@ import (
 	"math"
 	"math/big"
 	"os"
+	"path/filepath"
 	"reflect"
 	"regexp"
 	"runtime/debug"
@@ -35,7 +36,7 @@ import (
 type h struct{}
 
 func (h) Rule() string {
-	return "two fixed regression cases (min-should under score none / fuzziness 0; postings iterator reused after recycle), then geo-corner corpora (one query circle per corpus: runs of 2-4 doc-adjacent points in the corners of the circle's bounding box = inside the cell cover but 1.3 radii from the centre, most carrying a rare keyword tag, plus inside / far / point-less documents, no point within 20% of the edge; nine boolean shapes that put the geo clause beside the rarer tag so that the filtering geo searcher is ADVANCED), then seeded corpora of 6-40 documents (text fields t,u over a 3-8 word vocabulary of short a-d words sharing prefixes and one edit apart, keyword k, numeric n / datetime d / geo point g from boundary pools) spread over 2-6 batches with deletes and updates of live ids from the second batch on (70% with background merging made inert), each followed by 25 random query trees of depth <= 4 (term, match, phrase, multi-phrase, prefix, wildcard, regexp, fuzzy, term/numeric/date range, geo box/distance (at most one geo leaf, in half of the trees), match-all/none leaves under boolean nodes with must/should/mustNot/minShould, 15% of booleans with 11-12 should clauses), plus (thorough) an exhaustive block of all subsets of {a,b,c} over five documents with 24 boolean shapes of depth <= 2 each. Per corpus and reader one `snap` line prints the physical layout of the snapshot (real offsets, segment sizes, stored ids, deleted marks). Every query runs as AllMatches, TopN(1000) and TopN(1000)+SetScore(none) on ONE long-lived reader per corpus (the writer's current root) and on a reference reader taken one epoch earlier whose snapshot never recycles postings iterators (a difference is printed as `<ids> !fresh=<ids>`), and twice more (scored, score none) as a TRACE: the real searcher tree is rebuilt on the reader's snapshot, every node wrapped in a logging search.Searcher, driven by the real collector; the tree shape (with the real per-segment contents of every postings leaf) and every node's Next/Advance calls and answers are printed. A case is one q line and is non-trivial when its AllMatches result is neither empty nor all live documents"
+	return "two fixed regression cases (min-should under score none / fuzziness 0; postings iterator reused after recycle), then geo-corner corpora (one query circle per corpus: runs of 2-4 doc-adjacent points in the corners of the circle's bounding box = inside the cell cover but 1.3 radii from the centre, most carrying a rare keyword tag, plus inside / far / point-less documents, no point within 20% of the edge; nine boolean shapes that put the geo clause beside the rarer tag so that the filtering geo searcher is ADVANCED), then merged-segment corpora (three batches whose documents carry keywords occurring exactly once, merged into ONE segment by a writer whose merge budget is one segment - those postings lists are 1-hit encoded -, the index reopened with merging inert, one later batch of at least as many documents without those keywords; score-none disjunctions / prefix / wildcard / regexp / fuzzy / range rewrites over the once-only keywords), date-edge corpora (datetime values within 2^52 ns of either end of the int64 nanosecond time line next to ordinary dates, half-open date ranges facing those ends), then seeded corpora of 6-40 documents (text fields t,u over a 3-8 word vocabulary of short a-d words sharing prefixes and one edit apart, keyword k, numeric n / datetime d / geo point g from boundary pools) spread over 2-6 batches with deletes and updates of live ids from the second batch on (70% with background merging made inert), each followed by 25 random query trees of depth <= 4 (term, match, phrase, multi-phrase, prefix, wildcard, regexp, fuzzy, term/numeric/date range, geo box/distance (at most one geo leaf, in half of the trees), match-all/none leaves under boolean nodes with must/should/mustNot/minShould, 15% of booleans with 11-12 should clauses), plus (thorough) an exhaustive block of all subsets of {a,b,c} over five documents with 24 boolean shapes of depth <= 2 each. Per corpus and reader one `snap` line prints the physical layout of the snapshot (real offsets, segment sizes, stored ids, deleted marks). Every query runs as AllMatches, TopN(1000) and TopN(1000)+SetScore(none) on ONE long-lived reader per corpus (the writer's current root) and on a reference reader taken one epoch earlier whose snapshot never recycles postings iterators (a difference is printed as `<ids> !fresh=<ids>`), and twice more (scored, score none) as a TRACE: the real searcher tree is rebuilt on the reader's snapshot, every node wrapped in a logging search.Searcher, driven by the real collector; the tree shape (with the real per-segment contents of every postings leaf) and every node's Next/Advance calls and answers are printed. A case is one q line and is non-trivial when its AllMatches result is neither empty nor all live documents"
 }
 
 // ---------------------------------------------------------------------------------------------
@@ -613,6 +614,8 @@ func walkTooLong(q *sx) bool {
 type caseState struct {
 	num      string
 	merge    bool
+	merge3   bool   // phase 1: a writer that merges everything into one segment; `waitmerge` reopens the index with merging inert
+	dirPath  string // merge3: the file-system directory of the index
 	cfg      bluge.Config
 	snapDone bool // the `snap` line of the current reader has been printed
 	writer   *bluge.Writer
@@ -629,10 +632,17 @@ type caseState struct {
 
 var cur *caseState
 
+var workDir = "."
+
 func closeCase() {
 	if cur == nil {
 		return
 	}
+	defer func(p string) {
+		if p != "" {
+			_ = os.RemoveAll(p)
+		}
+	}(cur.dirPath)
 	if !cur.poisoned {
 		hlib.Catch(func() string {
 			if cur.reader != nil {
@@ -653,12 +663,24 @@ func closeCase() {
 	cur = nil
 }
 
-func openCase(num string, merge bool) string {
+func openCase(num string, merge bool, merge3 bool) string {
 	closeCase()
-	cur = &caseState{num: num, merge: merge, live: map[string]bool{}, terms: map[string]map[string]bool{}}
+	cur = &caseState{num: num, merge: merge, merge3: merge3, live: map[string]bool{}, terms: map[string]map[string]bool{}}
 	return hlib.Catch(func() string {
 		cfg := bluge.InMemoryOnlyConfig()
-		if !merge {
+		if merge3 {
+			// phase 1 (until `waitmerge`): the merge planner's budget is ONE segment (floor above the corpus size)
+			cur.dirPath = filepath.Join(workDir, "c07idx-"+num)
+			_ = os.RemoveAll(cur.dirPath)
+			cfg = bluge.DefaultConfig(cur.dirPath)
+			ic := cfg.VerifIndexConfig()
+			ic.MinSegmentsForInMemoryMerge = 1000
+			ic.MergePlanOptions.FloorSegmentSize = 100
+			ic.MergePlanOptions.MaxSegmentsPerTier = 2
+			ic.MergePlanOptions.SegmentsPerMergeTask = 10
+			ic.MergePlanOptions.TierGrowth = 2.0
+			cfg = cfg.VerifWithIndexConfig(ic)
+		} else if !merge {
 			ic := cfg.VerifIndexConfig()
 			ic.MinSegmentsForInMemoryMerge = 1000
 			ic.MergePlanOptions.MaxSegmentsPerTier = 1000
@@ -1070,6 +1092,7 @@ func analysesTo(text string, words []string) bool {
 // Exec
 
 func (h) Exec(line string, out func(string, string), st *hlib.Stats, work string) {
+	workDir = work
 	sp := strings.IndexByte(line, ' ')
 	op, rest := line, ""
 	if sp >= 0 {
@@ -1078,19 +1101,22 @@ func (h) Exec(line string, out func(string, string), st *hlib.Stats, work string
 	switch op {
 	case "case":
 		f := strings.Fields(rest)
-		num, merge := "?", true
+		num, merge, merge3 := "?", true, false
 		if len(f) > 0 {
 			num = f[0]
 		}
 		if len(f) > 1 && f[1] == "merge=0" {
 			merge = false
 		}
-		out(line, openCase(num, merge))
+		if len(f) > 1 && f[1] == "merge=3" {
+			merge3 = true
+		}
+		out(line, openCase(num, merge, merge3))
 		st.Count("op:case")
 		return
 	}
 	if cur == nil {
-		openCase("?", true)
+		openCase("?", true, false)
 	}
 	switch op {
 	case "seg":
@@ -1136,6 +1162,69 @@ func (h) Exec(line string, out func(string, string), st *hlib.Stats, work string
 			res = "bad-analysis"
 		}
 		out(op+" "+strings.Join(model, " "), res)
+	case "waitmerge":
+		// flush, then wait (bounded) until the background in-memory merge has left a single segment
+		res := flush()
+		if res == "ok" && cur.writer != nil {
+			deadline := time.Now().Add(5 * time.Second)
+			for {
+				n := -1
+				hlib.Catch(func() string {
+					rd, err := cur.writer.Reader()
+					if err != nil {
+						return "err"
+					}
+					if sn := snapshotOf(rd); sn != nil {
+						n = len(sn.Segments())
+					}
+					_ = rd.Close()
+					return "ok"
+				})
+				if n >= 0 && n <= 1 {
+					st.Count("corpus:merged-to-one-segment")
+					break
+				}
+				if time.Now().After(deadline) {
+					st.Count("corpus:merge-wait-timeout")
+					break
+				}
+				time.Sleep(2 * time.Millisecond)
+			}
+			if cur.merge3 {
+				// phase 2: reopen the same directory with merging made inert: later batches stay separate segments
+				hlib.Catch(func() string {
+					if cur.reader != nil {
+						_ = cur.reader.Close()
+						cur.reader = nil
+					}
+					if cur.refReader != nil {
+						_ = cur.refReader.Close()
+						cur.refReader = nil
+					}
+					_ = cur.writer.Close()
+					cur.writer = nil
+					cfg := bluge.DefaultConfig(cur.dirPath)
+					ic := cfg.VerifIndexConfig()
+					ic.MinSegmentsForInMemoryMerge = 1000
+					ic.MergePlanOptions.MaxSegmentsPerTier = 1000
+					ic.MergePlanOptions.SegmentsPerMergeTask = 1000
+					ic.MergePlanOptions.FloorSegmentSize = 1
+					cfg = cfg.VerifWithIndexConfig(ic)
+					cur.cfg = cfg
+					w, err := bluge.OpenWriter(cfg)
+					if err != nil {
+						cur.broken = true
+						st.Count("corpus:reopen-failed")
+						return "err"
+					}
+					cur.writer = w
+					st.Count("corpus:reopened-inert")
+					return "ok"
+				})
+			}
+		}
+		st.Count("op:waitmerge")
+		out("waitmerge", "ok")
 	case "q":
 		execQuery(line, rest, out, st)
 	default:
@@ -1215,9 +1304,16 @@ func execQuery(line, src string, out func(string, string), st *hlib.Stats) {
 	}
 	if !cur.poisoned && res[0] != "timeout" && res[0] != "panic" {
 		// node-level trace of the real searcher tree (scored, and unadorned under score none)
-		out("trace all "+as, traceSearch(cur.reader, cur.cfg, q, 0, st))
+		ta := traceSearch(cur.reader, cur.cfg, q, 0, st)
+		out("trace all "+as, ta)
 		if res[2] != "timeout" && res[2] != "panic" {
-			out("trace none "+as, traceSearch(cur.reader, cur.cfg, q, 2, st))
+			tn := traceSearch(cur.reader, cur.cfg, q, 2, st)
+			out("trace none "+as, tn)
+			if strings.Contains(tn, "<disjunction:unadorned>") && oneHitBeforeLastSegment(ta) {
+				// score none rewrote a disjunction into ONE unadorned iterator, and (seen in the scored tree) a term of the
+				// query has a 1-hit postings list in a segment that is followed by another segment
+				st.Count("trace:unadorned-disjunction-with-1hit-in-earlier-segment")
+			}
 		}
 		st.Count("op:trace")
 	}
@@ -1791,6 +1887,21 @@ func (h) Gen(r *hlib.Rand, tier string, scale int, emit func(string)) {
 		caseNo++
 	}
 
+	// a merged segment holding 1-hit postings lists, followed by a later segment
+	nmerged, ndate := 4*scale, 2*scale
+	if tier == "thorough" {
+		nmerged, ndate = 60*scale, 20*scale
+	}
+	for c := 0; c < nmerged; c++ {
+		genMergedOneHit(r, caseNo, emit)
+		caseNo++
+	}
+	// datetime values at both ends of the nanosecond time line with open-ended date ranges
+	for c := 0; c < ndate; c++ {
+		genDateEdge(r, caseNo, emit)
+		caseNo++
+	}
+
 	ncases := 50 * scale
 	if tier == "thorough" {
 		ncases = 1500 * scale
@@ -1984,6 +2095,153 @@ func genGeoCorner(r *hlib.Rand, caseNo int, emit func(string)) {
 		b(0, []*sx{tg(), tw(), gd()}, nil, nil),
 		b(1, []*sx{tg()}, []*sx{gd(), tw()}, nil),
 		gd(),
+	}
+	for _, q := range qs {
+		emit("q " + q.String())
+	}
+}
+
+// oneHitBeforeLastSegment: does the traced tree hold a postings leaf `(term p <field> <term> <seg>…)` with a
+// 1-hit iterator (`h<n>`) in a segment that is not the last one?
+func oneHitBeforeLastSegment(trace string) bool {
+	tree := trace
+	if i := strings.Index(trace, " @ "); i >= 0 {
+		tree = trace[:i]
+	}
+	for _, part := range strings.Split(tree, "(term p ")[1:] {
+		end := strings.IndexByte(part, ')')
+		if end < 0 {
+			continue
+		}
+		toks := strings.Fields(part[:end])
+		if len(toks) < 4 {
+			continue
+		}
+		segs := toks[2:]
+		for i, sg := range segs[:len(segs)-1] {
+			_ = i
+			if strings.HasPrefix(sg, "h") {
+				return true
+			}
+		}
+	}
+	return false
+}
+
+// genMergedOneHit: three batches whose documents carry keywords that occur exactly ONCE (field k has no
+// positions: after the in-memory merge of the three segments those postings lists are 1-hit encoded), a wait
+// for that merge, then ONE more batch with at least as many documents, none of which carries a rare keyword:
+// the snapshot is [merged segment with 1-hit lists, later segment]. Queries: disjunctions of two or more of
+// the rare keywords (should clauses, prefix / wildcard / regexp / fuzzy / range over field k).
+func genMergedOneHit(r *hlib.Rand, caseNo int, emit func(string)) {
+	emit(fmt.Sprintf("case %d merge=3", caseNo))
+	rare := []string{"ca", "cb", "cab", "cba", "da", "db", "dab", "dc", "bd", "bcd"}
+	for i := len(rare) - 1; i > 0; i-- {
+		j := r.Intn(i + 1)
+		rare[i], rare[j] = rare[j], rare[i]
+	}
+	common := []string{"a", "ab", "abc"}
+	words := []string{"a", "b", "ab", "bb"}
+	next, used := 0, 0
+	doc := func(kw string) string {
+		id := "d" + strconv.Itoa(next)
+		next++
+		toks := []string{id}
+		if r.Chance(70) {
+			toks = append(toks, "t="+words[r.Intn(len(words))]+","+words[r.Intn(len(words))])
+		}
+		if kw != "" {
+			toks = append(toks, "k="+kw)
+		}
+		return "ins " + strings.Join(toks, " ")
+	}
+	first := 0
+	for b := 0; b < 3; b++ {
+		emit("seg")
+		for i, n := 0, r.Range(2, 4); i < n; i++ {
+			switch {
+			case used < len(rare) && (used < 3 || r.Chance(70)):
+				emit(doc(rare[used]))
+				used++
+			case r.Chance(50):
+				emit(doc(common[r.Intn(len(common))]))
+			default:
+				emit(doc(""))
+			}
+			first++
+		}
+	}
+	emit("waitmerge")
+	emit("seg")
+	for i, n := 0, first+r.Range(0, 3); i < n; i++ {
+		if r.Chance(60) {
+			emit(doc(common[r.Intn(len(common))]))
+		} else {
+			emit(doc(""))
+		}
+	}
+	if r.Chance(50) && first > 1 {
+		emit("del d" + strconv.Itoa(r.Intn(first)))
+	}
+	rk := func() *sx { return node("t", at("k"), at(rare[r.Intn(used)])) }
+	b := func(min int, m, s, n []*sx) *sx {
+		return node("b", at(strconv.Itoa(min)), ls(m...), ls(s...), ls(n...))
+	}
+	qs := []*sx{
+		b(0, nil, []*sx{rk(), rk()}, nil),
+		b(1, nil, []*sx{rk(), rk(), rk()}, nil),
+		b(1, []*sx{node("all")}, []*sx{rk(), rk()}, nil),
+		b(0, nil, []*sx{rk(), rk(), node("t", at("k"), at(common[0]))}, nil),
+		node("px", at("k"), at("c")),
+		node("px", at("k"), at("d")),
+		node("wc", at("k"), at("*b*")),
+		node("wc", at("k"), at("?a*")),
+		node("re", at("k"), at("x"+hex.EncodeToString([]byte("[cd].*")))),
+		node("tr", at("k"), at("b"), at("e"), at("1"), at("0")),
+		node("fz", at("k"), at("cab"), at("1"), at("0")),
+		b(0, []*sx{b(0, nil, []*sx{rk(), rk()}, nil)}, nil, []*sx{node("t", at("t"), at("bb"))}),
+	}
+	for _, q := range qs {
+		emit("q " + q.String())
+	}
+}
+
+// genDateEdge: datetime values within 2^52 ns (about 52 days) of either end of the int64 nanosecond time
+// line (years 1677 and 2262) next to ordinary dates, and half-open date ranges facing those ends.
+func genDateEdge(r *hlib.Rand, caseNo int, emit func(string)) {
+	emit(fmt.Sprintf("case %d merge=0", caseNo))
+	const span = int64(1) << 52
+	y2k := time.Date(2000, 1, 1, 0, 0, 0, 0, time.UTC).UnixNano()
+	y1900 := time.Date(1900, 3, 1, 0, 0, 0, 0, time.UTC).UnixNano()
+	vals := []int64{math.MaxInt64, math.MaxInt64 - 1, math.MaxInt64 - 1000000000, math.MaxInt64 - span/2, math.MaxInt64 - span + 1,
+		math.MaxInt64 - span - 1, math.MaxInt64 - 3*span,
+		math.MinInt64, math.MinInt64 + 1, math.MinInt64 + span/2, math.MinInt64 + span - 1, math.MinInt64 + span + 1, math.MinInt64 + 3*span,
+		y2k, y2k + 1, y1900, 1, -1}
+	for i := len(vals) - 1; i > 0; i-- {
+		j := r.Intn(i + 1)
+		vals[i], vals[j] = vals[j], vals[i]
+	}
+	n := 0
+	for b := 0; b < 2; b++ {
+		emit("seg")
+		for i := 0; i < len(vals)/2; i++ {
+			toks := []string{"d" + strconv.Itoa(n), "k=" + []string{"a", "b"}[r.Intn(2)], "d=" + strconv.FormatInt(vals[n], 10)}
+			emit("ins " + strings.Join(toks, " "))
+			n++
+		}
+	}
+	s := func(v int64) string { return strconv.FormatInt(v, 10) }
+	dr := func(a, b string, ia, ib int) *sx {
+		return node("dr", at("d"), at(a), at(b), at(strconv.Itoa(ia)), at(strconv.Itoa(ib)))
+	}
+	bq := func(m ...*sx) *sx { return node("b", at("0"), ls(m...), ls(), ls()) }
+	qs := []*sx{
+		dr(s(y2k), "z", 1, 0), dr(s(y2k), "z", 0, 1), dr("z", s(y1900), 0, 1), dr("z", s(y1900), 1, 0),
+		dr(s(math.MaxInt64-3*span), "z", 1, 1), dr(s(math.MaxInt64-span/2), "z", 1, 1),
+		dr("z", s(math.MinInt64+3*span), 1, 1), dr("z", s(math.MinInt64+span/2), 1, 1),
+		dr(s(y2k), s(math.MaxInt64), 1, 1), dr(s(math.MinInt64), s(y1900), 1, 1),
+		bq(node("t", at("k"), at("a")), dr(s(y2k), "z", 1, 0)),
+		bq(node("t", at("k"), at("b")), dr("z", s(y1900), 0, 1)),
 	}
 	for _, q := range qs {
 		emit("q " + q.String())
